@@ -23,6 +23,10 @@ def run(ctx):
     shared.owner_id_removal(ctx, '3')
     shared.read_layering(ctx, '4')
     shared.file_reads_shadowed(ctx, '4s')
+    # the latest value of a key may still live only in an older, queued index table: reader and planner search them all
+    from props import C09
+    C09.both_index_search(ctx, '4r', 'column::HashColumn::get', ['column::HashColumn::get_in_index'], 0, '.Tables.index')
+    C09.both_index_search(ctx, '4w', 'column::HashColumn::search_all_indexes', ['column::HashColumn::search_index'], 0, '.Tables.index')
     # 5. in-order planning: IndexedChangeSet.changes is append-only and iterated forward
     rx = re.compile(REORDER_RX)
     uses = []
